@@ -320,6 +320,12 @@ class OpaqueSignature(Signature):
     def from_signer(self, sig):
         self.data = bytearray(sig)
 
+    def __copy__(self):
+        # there are no named integers to copy: the opaque octets are the signature
+        sig = self.__class__()
+        sig.data = bytearray(self.data)
+        return sig
+
 
 class RSASignature(Signature):
     __mpis__ = ('md_mod_n', )
